@@ -354,8 +354,10 @@ let handle_hist c =
   let file = bytes_of_hex (get1 c "file") in
   let dec = decompress_of zt in
   match open_meta file with
-  | Panic -> check_eq c "meta" (String.concat " " (get c "meta")) "panic - -"
-  | Fail e -> check_eq c "meta" (String.concat " " (get c "meta")) ("err " ^ err_name e ^ " -")
+  | Panic -> check_eq c "meta" (String.concat " " (get c "meta")) "panic - -";
+    spec_ok c (prop ^ ".open") false "the file the writer returned for these entries does not open"
+  | Fail e -> check_eq c "meta" (String.concat " " (get c "meta")) ("err " ^ err_name e ^ " -");
+    spec_ok c (prop ^ ".open") false "the file the writer returned for these entries does not open"
   | Done m ->
     let ver = match m.m_version with FormatV1 -> 0 | FormatV2 -> 1 in
     check_eq c "meta" (String.concat " " (get c "meta"))
@@ -370,8 +372,9 @@ let handle_hist c =
     end;
     if es <> [] then begin
       match decode_file dec file with
-      | Done ((_, _), nodes) ->
-        spec_ok c (prop ^ ".wf_store") (store_wf nodes m.m_root m.m_levels) "the file is not a well-formed store (hypotheses of the reader refinement)"
+      | Done ((_, des), nodes) ->
+        spec_ok c (prop ^ ".wf_store") (store_wf nodes m.m_root m.m_levels) "the file is not a well-formed store (hypotheses of the reader refinement)";
+        spec_ok c (prop ^ ".content") (entries_hash des = entries_hash es) "the file the writer returned does not hold the inserted entries"
       | _ -> spec_ok c (prop ^ ".wf_store") false "file does not decode"
     end;
     let load = memo_load (load_block dec file m.m_codec) in
